@@ -206,7 +206,7 @@ Qed.
 
 (* ------------------------------------------------------------------ handle_last_will *)
 (** [c16_router], the [OpWill] half.  Without a registered entry nothing at all happens.  With
-    one, the entry is removed; if its topic is not valid UTF-8 nothing else changes; otherwise the
+    one, the entry is removed; if its topic is not valid UTF-8 or is empty nothing else changes; otherwise the
     will (retain flag cleared; the flag only feeds the retained store, see C15) is appended to
     each log in the list [dl_matches] returns for the topic, once per occurrence, and to no other *)
 Lemma handle_last_will_spec st client st' :
@@ -216,7 +216,7 @@ Lemma handle_last_will_spec st client st' :
   | Some w =>
       let st1 := set_r_wills st (al_remove str_eqb client (r_wills st)) in
       r_wills st' = al_remove str_eqb client (r_wills st) /\
-      if utf8_valid (w_topic w) then
+      if will_deliverable w then
         exists st3 idxs,
           dl_matches (retain_update st1 (w_topic w) (will_publish w) (will_props w)) (w_topic w) = Ok (st3, idxs) /\
           forall i, match nthN (dl_logs (r_datalog st)) i with
@@ -231,7 +231,9 @@ Proof.
   intros H. unfold handle_last_will in H.
   destruct (al_get str_eqb client (r_wills st)) as [w|]; [|okinv; reflexivity].
   fold (will_publish w) in H. fold (will_props w) in H. cbn [p_topic will_publish] in H. fold (will_publish w) in H.
-  cbn zeta. destruct (utf8_valid (w_topic w)); cbn [negb] in H; [|okinv; rsimpl; auto].
+  cbn zeta. unfold will_deliverable.
+  destruct (utf8_valid (w_topic w)); cbn [negb andb] in H |- *; [|okinv; rsimpl; auto].
+  destruct (w_topic w) as [|t0 tr] eqn:Et; [okinv; rsimpl; auto|]. rewrite <- Et in *.
   set (st1 := set_r_wills st (al_remove str_eqb client (r_wills st))) in *.
   pose proof (retain_update_frame st1 (w_topic w) (will_publish w) (will_props w)) as (_ & Hw & _ & Hl & _).
   destruct (dl_matches _ (w_topic w)) as [[st3 idxs] | |] eqn:Em; cbn [bind] in H; try discriminate.
